@@ -16,12 +16,12 @@ pub enum Ev {
     N(i64),
     Er(i64, u8),
 }
-fn ev_dt(e: &Ev) -> i64 {
+pub fn ev_dt(e: &Ev) -> i64 {
     match e {
         Ev::P(d, _) | Ev::N(d) | Ev::Er(d, _) => *d,
     }
 }
-fn show(h: &[Ev]) -> String {
+pub fn show(h: &[Ev]) -> String {
     h.iter()
         .map(|e| match e {
             Ev::P(d, v) => format!("P(+{}ns,{:?})", d, v),
@@ -127,7 +127,7 @@ fn mk_real(g: Gains, scale: f32) -> Real {
 }
 
 /// Execute a history on the real controller; returns per step (update result, get obs).
-fn run_real(g: Gains, h: &[Ev], t0: i64, scale: f32) -> Vec<(u32, Obs)> {
+pub fn run_real(g: Gains, h: &[Ev], t0: i64, scale: f32) -> Vec<(u32, Obs)> {
     let mut r = mk_real(g, scale);
     let mut t = t0;
     let mut out = Vec::with_capacity(h.len());
@@ -144,7 +144,7 @@ fn run_real(g: Gains, h: &[Ev], t0: i64, scale: f32) -> Vec<(u32, Obs)> {
     out
 }
 
-fn run_composed(g: Gains, h: &[Ev], t0: i64) -> Vec<Obs> {
+pub fn run_composed(g: Gains, h: &[Ev], t0: i64) -> Vec<Obs> {
     let inp = rc(Scr::<Quantity>::new(Ok(None)));
     let mut c = Composed::new(dyn_getter(&inp), g);
     let mut t = t0;
